@@ -347,9 +347,7 @@ class MetaFile:
         self.meta["info"]["piece length"] = self.piece_length
 
         self.meta_version = meta_version
-        parent, self.name = os.path.split(self.path)
-        if not self.name:
-            self.name = os.path.basename(parent)
+        self.name = os.path.basename(os.path.abspath(self.path))
         self.meta["info"]["name"] = self.name
 
     def assemble(self):
@@ -603,7 +601,6 @@ class TorrentFileHybrid(MetaFile, ProgMixin):
         """
         super().__init__(**kwargs)
         logger.debug("Assembling bittorrent Hybrid file")
-        self.name = os.path.basename(self.path)
         self.hashes = []
         self.piece_layers = {}
         self.pieces = []
@@ -709,7 +706,6 @@ class TorrentAssembler(MetaFile, ProgMixin):
         """
         super().__init__(**kwargs)
         logger.debug("Assembling bittorrent Hybrid file")
-        self.name = os.path.basename(self.path)
         self.hashes = []
         self.piece_layers = {}
         self.pieces = bytearray()
